@@ -118,7 +118,73 @@ def run_batch(chk: Check, drv: Driver, prepared, n_inputs: int, real: bool, back
             chk.corr("machine-vs-" + backend, 1, 0)
 
 
+def front_half(chk: Check, drv: Driver):
+    """desugar (Python) vs Lean port, spec oracle (Python) vs Lean `denote`, and the model-level
+    instance of `desugar_correct`: denoteD (desugar a) = denote a unless productHoistUnsafe."""
+    from fractions import Fraction
+
+    from tensora.desugar import desugar_assignment
+
+    from .. import algebra
+
+    rng = chk.rng
+    n = 400 if chk.tier == "quick" else 5000
+    texts = list(problems.CURATED) + [problems.random_assignment(rng, rng.choice([2, 3, 4, 5, 6])) for _ in range(n)]
+    reqs, meta = [], []
+    for text in texts:
+        a = problems.parse(text)
+        if a is None:
+            continue
+        sizes = problems.index_sizes(a, rng, (0, 1, 2, 3))
+        ins = {}
+        for ts in a.expression.variables().values():
+            t = ts[0]
+            ins[t.name] = problems.random_input(rng, [sizes[i] for i in t.indexes])
+        reqs.append("DESUGAR " + sx(algebra.export_assignment(a)))
+        reqs.append("DENOTE " + " ".join(sx(x) for x in (algebra.export_assignment(a), algebra.inputs_sx(ins), algebra.sizes_sx(sizes))))
+        meta.append((text, a, sizes, ins))
+    replies = drv.batch(reqs)
+    mism_d = mism_o = 0
+    for k, (text, a, sizes, ins) in enumerate(meta):
+        rd, rv = replies[2 * k], replies[2 * k + 1]
+        case = {"assignment": text, "sizes": sizes, "inputs": {n_: [[list(c), v] for c, v in cv.items()] for n_, cv in ins.items()}}
+        py = sx(algebra.canon_desugared(desugar_assignment(a).expression))
+        ok = isinstance(rd, list) and rd[0] == "ok" and sx(rd[1]) == py
+        mism_d += int(not ok)
+        if not ok:
+            chk.unproved_obligation("correspondence:desugar", f"python {py[:300]} vs lean {sx(rd)[:300]}", case)
+            continue
+        unsafe = rd[2] == "true"
+        if unsafe != kruns.product_hoist_unsafe(a):
+            chk.unproved_obligation("correspondence:productHoistUnsafe", "predicate differs between harness and Lean", case)
+        if not (isinstance(rv, list) and rv[0] == "ok"):
+            chk.unproved_obligation("correspondence:denote", f"driver: {sx(rv)[:200]}", case)
+            continue
+        exp = kernels.denote(a, ins, sizes)
+        for c, v, vd in rv[1]:
+            c = tuple(int(x) for x in c)
+            v, vd = algebra.parse_q(v), algebra.parse_q(vd)
+            if Fraction(exp[c]) != v:
+                mism_o += 1
+                chk.unproved_obligation("correspondence:denote(oracle)", f"python oracle {exp[c]} vs lean denote {v} at {c}", case)
+                break
+            if v != vd:
+                if unsafe:
+                    f = chk.match_known(lambda f: f.get("signature", {}).get("predicate") == "product-hoist-unsafe")
+                    if f:
+                        chk.known(f["id"], f["what"])
+                        break
+                chk.violation("desugared tree does not mean what the assignment means (model of desugar, which matches the code)",
+                              case, expected=str(v), got=str(vd))
+                break
+        chk.count("front_half_assignments")
+        chk.case(("front", text), sample=None)
+    chk.corr("desugar", len(meta), mism_d)
+    chk.corr("denote-oracle", len(meta), mism_o)
+
+
 def run(chk: Check, drv: Driver):
+    front_half(chk, drv)
     chk.cov["rule"] = (
         "curated + seeded random assignments (<=4 leaves, + - *, parentheses, literals, scalars, repeated tensors) x "
         "format assignments (all when few, else sampled; every mode ordering) x index sizes in {0..3} x random sparsity "
